@@ -225,7 +225,7 @@ ini_buf_gen(const ini_p ini, uint8_t *buf, const size_t buf_size,
 	for (i = 0, off = 0; i < ini->lines_count; i ++) {
 		if (NULL == ini->lines[i])
 			continue;
-		if ((ini->lines[i]->data_size + 2) > buf_size) {
+		if ((ini->lines[i]->data_size + 2) > (buf_size - off)) {
 			error = -1;
 			break;
 		}
